@@ -17,7 +17,7 @@ func (fe *FE) checkGuard(st *State, loc *Loc, site, how string) {
 // activation (not yet shared).
 func (fe *FE) guardOb(st *State, loc *Loc, decl, site, how string) {
 	fs := strings.Fields(decl)
-	if len(fs) != 2 || fs[0] != "guarded_by" || len(loc.Idx) == 0 {
+	if len(fs) != 2 || (fs[0] != "guarded_by" && fs[0] != "access_under") || len(loc.Idx) == 0 {
 		return
 	}
 	owner := loc.Idx[0]
@@ -46,4 +46,16 @@ func (fe *FE) guardedAccess(st *State, ref, what, site string) {
 	}
 	held := sel(fe.heapTerm(st, "G_held", arraySort([]string{SInt}, SBool)), lock)
 	fe.addOb(st, "race", what+"@"+site, []string{"C19"}, held, "access to state that is shared with concurrently running goroutines needs its lock held")
+}
+
+func (fe *FE) guardedBaseAccess(st *State, loc *Loc, how string) {
+	if fe.scanning || st.guardedBases == nil {
+		return
+	}
+	lock, ok := st.guardedBases[stripComp(loc.Base)]
+	if !ok || isFreshRefTerm(loc.Idx[0]) {
+		return
+	}
+	held := sel(fe.heapTerm(st, "G_held", arraySort([]string{SInt}, SBool)), lock)
+	fe.addOb(st, "race", how+"."+strings.TrimPrefix(stripComp(loc.Base), "F_")+"@"+fe.curPos, []string{"C19"}, held, "this function accesses "+loc.Base+" of shared objects only with its lock held")
 }
